@@ -85,6 +85,7 @@ def enumerate_language(params, cache=True, simulate=None, timeout=3600, seed=0):
     if cache:
         with open(cpath, 'w') as f:
             json.dump({'sentences': sents, 'res': r}, f)
+        _prune_cache(cdir)
     return sents, r
 
 
@@ -123,7 +124,18 @@ def enumerate_family(family, cache=True, timeout=3600, module='MC_TypedGen', spe
     if cache:
         with open(cpath, 'w') as f:
             json.dump({'sentences': sents, 'res': r}, f)
+        _prune_cache(cdir)
     return sents, r
+
+
+def _prune_cache(cdir, keep=120):
+    """The cache is keyed by the hash of the spec: entries of older spec versions are never hit again."""
+    try:
+        fs = sorted((os.path.join(cdir, f) for f in os.listdir(cdir) if f.endswith('.json')), key=os.path.getmtime)
+        for f in fs[:-keep]:
+            os.unlink(f)
+    except OSError:
+        pass
 
 
 def fix_var_names(ast):
